@@ -406,3 +406,18 @@ def family(fx):
         rows.add((tuple(v), fp(strip_after(p.ret))))
     want = {((("ip_version", "V4"),), "self.ipv4"), ((("ip_version", "V6"),), "self.ipv6")}
     yield ob("R-C03-6", "family#ws#map", rows == want, b, None, "family selection %s" % sorted(rows), {"rows": sorted(map(str, rows))})
+
+
+@PROP.rule("R-C03-7", floor=4, doc="the hop from the canonical source address to the wire image handed to other peers keeps the octets in network order (udp)")
+def wire_image(fx):
+    # R-C03-2 treats `ip.into()` (std address -> Ipv{4,6}AddrBytes) as a transparent hop of the provenance chain; that is only
+    # right if the conversion is the identity on the octets. Same obligations as C13's address images.
+    from rules import C13
+    n = 0
+    for o in C13.address_images(fx):
+        n += 1
+        o2 = ob("R-C03-7", "wire_image#" + o.key, o.ok, None, None, o.detail, o.sample, o.trivial)
+        o2.where = o.where
+        yield o2
+    if n == 0:
+        yield ob("R-C03-7", "wire_image#anchors", False, None, None, "address image conversions not found")
